@@ -30,7 +30,8 @@ OLDER variants.
   after a sparse load succeeds, keeps `Cover` and loses no signature (`insert_after_sparse_load`),
   searches with any cache bound keep it on every tree (`cover_after_search`), and after a full
   save + load and any further insertions a search returns exactly the linear scan, the new
-  signatures included (`search_after_insert_into_loaded`), and the same after a sparse save +
+  signatures included (`search_after_insert_into_loaded`), also after saving the tree in use to
+  another location and continuing to use it (`cover_after_save_elsewhere`), and the same after a sparse save +
   load + insertions (`search_after_insert_into_sparse_loaded`);
 * older index versions: a version-3 load ESTABLISHES the bound (`cover_after_load_v3`, also for
   sparse saves: `cover_after_sparse_load_v3`), never fails (`load_v3_total`), and is searchable;
@@ -47,6 +48,7 @@ import SmVerif.Lemmas.SBTSearch
 import SmVerif.Lemmas.SBTFinal
 import SmVerif.Lemmas.SBTV3
 import SmVerif.Lemmas.SBTLegacy
+import SmVerif.Lemmas.SBTSaveElsewhere
 import SmVerif.Lemmas.Nodegraph
 import SmVerif.Model.Generated
 
@@ -393,6 +395,33 @@ theorem search_is_linear_scan_all_kinds {fixed keep : Bool} {t : Tree} (h : Sear
       ∀ l, l ∈ ls ↔ (leafPasses ⟨c, thr, mins, m, cut⟩ l = true ∧ ∃ p, t.leaves.get? p = some l) :=
   search_exact_all_kinds h c m thr mins cut
 
+/-- **cover_after_save_elsewhere**: load from disk (full save, versions 4-6, any cache bound), insert
+ANY list of signatures, save to ANOTHER location (any omitted subset) and keep using the tree in
+memory: `save` leaves it exactly as it was, so after ANY run of further searches — each unloads what
+it visits and may evict cached nodes — it is still covered and a search returns exactly the linear
+scan, the inserted signatures included; and the copy written is covered, holds the same signatures
+and, when saved in full, answers searches exactly.  (The model's `saveElsewhere` returns the tree
+unchanged: that `save` touches neither node contents, nor the storage a node reloads from, nor its
+dirty flag is what the `saveas` histories of the sbt stream compare against the real code.) -/
+theorem cover_after_save_elsewhere {d : Nat} {sizes : List Nat} (hd : 2 ≤ d) (hsz : SizesOK sizes) {t t1 t2 : Tree}
+    (hr : Reach d sizes t) {ver : Nat} (cm : Option Nat) (hv : ver ≠ 3) {fixed0 : Bool}
+    (hload : load fixed0 (save t (fun _ => false)) ver cm = .ok t1) {fixed pre : Bool} (ls : List Leaf)
+    (hins : insAllV fixed pre t1 ls = .ok t2) (omitted : Nat → Bool) :
+    (saveElsewhere t2 omitted).1 = t2 ∧ Cover t2 ∧ (∀ l ∈ ls, ∃ p, t2.leaves.get? p = some l) ∧
+    (∀ (fixed' : Bool) (qs : List Query) (q : Query),
+      let t3 := searchMany fixed' true (saveElsewhere t2 omitted).1 qs
+      Cover t3 ∧ t3.leaves = t2.leaves ∧
+      ∃ res, (search fixed' true t3 q).2 = .ok res ∧
+        ∀ l, l ∈ res ↔ (leafPasses q l = true ∧ ∃ p, t2.leaves.get? p = some l)) ∧
+    (∀ (fixed'' : Bool) (ver' : Nat) (cm' : Option Nat) (t4 : Tree), ver' ≠ 3 →
+      load fixed'' (saveElsewhere t2 omitted).2 ver' cm' = .ok t4 →
+      Base t4 ∧ Cover t4 ∧ t4.leaves = t2.leaves) ∧
+    (∀ (fixed'' keep : Bool) (ver' : Nat) (cm' : Option Nat) (t4 : Tree) (q : Query), ver' ≠ 3 →
+      load fixed'' (saveElsewhere t2 (fun _ => false)).2 ver' cm' = .ok t4 →
+      ∃ res, (search fixed'' keep t4 q).2 = .ok res ∧
+        ∀ l, l ∈ res ↔ (leafPasses q l = true ∧ ∃ p, t2.leaves.get? p = some l)) :=
+  SBT.cover_after_save_elsewhere hd hsz hr cm hv hload ls hins omitted
+
 /-- searches can be repeated: `Searchable` is what a search needs and what it leaves behind -/
 theorem searchable_after_search {fixed keep : Bool} {t : Tree} (h : Searchable keep t) (q : Query) :
     Searchable keep (search fixed keep t q).1 := (search_exact (fixed := fixed) (keep := keep) h q).1
@@ -646,6 +675,18 @@ theorem current_unload_example :
     rw [hd] at h
     simp only [Bool.and_eq_true] at h
     exact ⟨t, t', rfl, (cover_iff_coverB t).mpr h.1.1, (cover_iff_coverB t').mpr h.1.2, h.2⟩
+
+/-- the corpus history of the seeded change C13d in the model: two signatures, load, insert a third,
+save elsewhere, search twice: both searches find it and the tree stays covered -/
+theorem save_elsewhere_example :
+    (match d24 true true true with
+     | .ok (t, _) =>
+       let t1 := (saveElsewhere t (fun _ => false)).1
+       let r1 := search true true t1 ⟨false, 100, [3], false, none⟩
+       let r2 := search true true r1.1 ⟨false, 100, [3], false, none⟩
+       found r1 2 && found r2 2 && coverB r2.1 &&
+         (match load true (saveElsewhere t (fun _ => false)).2 6 none with | .ok t4 => coverB t4 | .error _ => false)
+     | .error _ => false) = true := by decide +kernel
 
 /-! ## 7. non-vacuity -/
 
